@@ -3,16 +3,20 @@
 
    PARTIAL: what is proved is the placement pipeline (frame selection, rigid placement, unit rescale, path
    line, style save/replace/restore) and three local shape generators that are exact tables: make_Cuboid, the
-   Polyline line, make_Triangle.  The other local shape generators (prisms, ellipsoids, cylinder segments,
-   arrows, sensor: trigonometric vertex tables in traces_core.py / traces_base.py) are NOT modelled: in
+   Polyline line, make_Triangle, make_Tetrahedron, and -- over R -- the Circle line, make_Prism (Cylinder),
+   make_CylinderSegment, make_Ellipsoid (Sphere) vertex formulas and the make_Dipole rotation.  NOT modelled:
+   the facet index tables of the round bodies, make_Pyramid / make_Arrow vertex tables, the Sensor mesh
+   (sensor_mesh.py) and pixel/hull assembly of make_Sensor, TriangularMesh (vertices passed through), mesh-line
+   and orientation-symbol decorations, magnetization arrows, colouring/slicing.  In
    C19_drawn_copies_partial the local vertex list `local` is an arbitrary input, and that those local vertices
    lie on the body's surface and span its extent is checked on the implementation by the harness, not proved.
    get_unit_factor / _UNIT_PREFIX / unit_prefix are TRANSLATED from /repo on this run (Gen.GenUnits). *)
-From Coq Require Import ZArith QArith List Bool Sorted Reals.
+From Coq Require Import ZArith QArith List Bool Sorted Reals Permutation.
 From MV Require Import Lib.ListZ Lib.Rigid Lib.OctZ Gen.GenUnits
   Model.DisplayModel Model.DisplayExec Model.DisplayUnits Model.DisplayTriangle Model.DisplayShapes
   Proofs.DisplayProofs Proofs.DisplayUnitsProofs Proofs.DisplayTriangleProofs Proofs.DisplayShapesProofs
-  Model.DisplayCircle Proofs.DisplayCircleProofs.
+  Model.DisplayCircle Proofs.DisplayCircleProofs Gen.GenShapes Model.DisplayRound Proofs.DisplayRoundProofs
+  Model.DisplayDipole Proofs.DisplayDipoleProofs.
 Import ListNotations.
 Open Scope Z_scope.
 
@@ -170,6 +174,88 @@ Theorem C19_circle_closed_once_around : forall (base : nat) (d : R), (2 <= base)
 Proof. exact (fun base d Hb => conj (conj (proj1 (circle_closed_lem base d Hb)) (proj1 (proj2 (circle_closed_lem base d Hb))))
                                    (conj (proj2 (proj2 (circle_closed_lem base d Hb))) (circle_step_lem base))). Qed.
 Print Assumptions C19_circle_closed_once_around.
+
+(* make_Tetrahedron: the drawn vertices are the object's four vertices (check_chirality may exchange the last
+   two) and the translated triangle table consists of four different corner triples each leaving out a different
+   vertex: the four faces *)
+Theorem C19_tetrahedron_vertices : forall p0 p1 p2 p3, Permutation (tetra_vertices p0 p1 p2 p3) [p0; p1; p2; p3].
+Proof. exact tetra_vertices_lem. Qed.
+Print Assumptions C19_tetrahedron_vertices.
+
+Theorem C19_tetrahedron_faces : tetra_table_ok = true.
+Proof. exact tetra_table_lem. Qed.
+Print Assumptions C19_tetrahedron_faces.
+
+(* make_CylinderSegment (over R; tied by float comparison and AST fingerprint): for EVERY vertex count N, block b
+   and index k the vertex has radius r1 or r2 and height +-h/2; with np.linspace modelled as
+   phi1 + k (phi2 - phi1)/(N - 1) the arc angles start exactly at phi1, end exactly at phi2, stay in between and
+   advance in equal steps -- for every N >= 2 (the code's minimum is 5) *)
+Theorem C19_segment_vertex_on_surface : forall (r1 r2 h phi1 phi2 : R) (N b k : nat),
+  let '(x, y, z) := seg_vertex r1 r2 h phi1 phi2 N b k in
+  (x * x + y * y = seg_radius r1 r2 b * seg_radius r1 r2 b /\ (z = h / 2 \/ z = - (h / 2)) /\
+   (seg_radius r1 r2 b = r1 \/ seg_radius r1 r2 b = r2))%R.
+Proof. exact seg_vertex_on_surface_lem. Qed.
+Print Assumptions C19_segment_vertex_on_surface.
+
+Theorem C19_segment_angles_full_extent : forall (phi1 phi2 : R) (N : nat), (2 <= N)%nat ->
+  (seg_phi phi1 phi2 N 0 = phi1 /\ seg_phi phi1 phi2 N (N - 1) = phi2 /\
+   (phi1 <= phi2 -> forall k, (k <= N - 1)%nat -> phi1 <= seg_phi phi1 phi2 N k <= phi2) /\
+   (forall k, seg_phi phi1 phi2 N (S k) - seg_phi phi1 phi2 N k = (phi2 - phi1) / INR (N - 1)))%R.
+Proof. exact seg_angles_lem. Qed.
+Print Assumptions C19_segment_angles_full_extent.
+
+Theorem C19_segment_blocks : forall r1 r2 h : R,
+  (seg_radius r1 r2 0, seg_z h 0) = (r1, (h / 2)%R) /\ (seg_radius r1 r2 1, seg_z h 1) = (r2, (h / 2)%R) /\
+  (seg_radius r1 r2 2, seg_z h 2) = (r1, (- (h / 2))%R) /\ (seg_radius r1 r2 3, seg_z h 3) = (r2, (- (h / 2))%R).
+Proof. exact seg_blocks_lem. Qed.
+Print Assumptions C19_segment_blocks.
+
+(* make_Prism (Cylinder): rim vertices at radius d/2 and height +-h/2, cap centres on the axis at +-h/2, rim
+   angles from 0 in steps of 2 pi / N once around *)
+Theorem C19_cylinder_rim_on_surface : forall (d h : R) (N : nat) (top : bool) (k : nat),
+  let '(x, y, z) := prism_rim d h N top k in
+  (x * x + y * y = (d / 2) * (d / 2) /\ z = (if top then h / 2 else - (h / 2)))%R.
+Proof. exact prism_rim_on_surface_lem. Qed.
+Print Assumptions C19_cylinder_rim_on_surface.
+
+Theorem C19_cylinder_caps_and_angles : forall (h : R) (top : bool) (N k : nat), (1 <= N)%nat ->
+  prism_centre h top = (0, 0, if top then h / 2 else - (h / 2))%R /\
+  (prism_t N 0 = 0 /\ prism_t N (S k) - prism_t N k = 2 * PI / INR N /\ prism_t N N = 2 * PI)%R.
+Proof. exact (fun h top N k HN => conj (prism_centre_lem h top) (prism_angles_lem N k HN)). Qed.
+Print Assumptions C19_cylinder_caps_and_angles.
+
+(* make_Ellipsoid / Sphere: every grid point lies on the ellipsoid with semi-axes a/2, b/2, c/2 (on the sphere
+   of diameter d); the poles are grid points (full extent along z) *)
+Theorem C19_ellipsoid_vertex_on_surface : forall (a b c : R) (N i j : nat), (a <> 0 -> b <> 0 -> c <> 0 ->
+  let '(x, y, z) := ell_vertex a b c N i j in
+  (x / (a / 2)) * (x / (a / 2)) + (y / (b / 2)) * (y / (b / 2)) + (z / (c / 2)) * (z / (c / 2)) = 1)%R.
+Proof. exact ell_vertex_on_surface_lem. Qed.
+Print Assumptions C19_ellipsoid_vertex_on_surface.
+
+Theorem C19_sphere_vertex_on_surface : forall (d : R) (N i j : nat),
+  let '(x, y, z) := ell_vertex d d d N i j in (x * x + y * y + z * z = (d / 2) * (d / 2))%R.
+Proof. exact sphere_vertex_on_surface_lem. Qed.
+Print Assumptions C19_sphere_vertex_on_surface.
+
+Theorem C19_ellipsoid_poles : forall (a b c : R) (N j : nat), (2 <= N)%nat ->
+  (ell_vertex a b c N 0 j = (0 * sin (ell_phi N j) * a * (1 / 2), 0 * cos (ell_phi N j) * b * (1 / 2), - 1 * c * (1 / 2)) /\
+   ell_vertex a b c N (N - 1) j = (0 * sin (ell_phi N j) * a * (1 / 2), 0 * cos (ell_phi N j) * b * (1 / 2), 1 * c * (1 / 2)))%R.
+Proof. exact ell_poles_lem. Qed.
+Print Assumptions C19_ellipsoid_poles.
+
+(* make_Dipole: the rotation applied to the arrow model (built along +z) takes +z exactly onto the moment
+   direction, for EVERY unit vector -- including +z (no rotation) and -z (the replacement-axis branch) *)
+Theorem C19_dipole_rotation : forall a b c : R, (a * a + b * b + c * c = 1)%R ->
+  rotvec_apply (dipole_rotvec (a, b, c)) zaxis = (a, b, c).
+Proof. exact dipole_rotation_lem. Qed.
+Print Assumptions C19_dipole_rotation.
+
+(* RECORD (seeded defect C19-C, not the current code): without the replacement axis a moment along -z is drawn
+   pointing along +z *)
+Theorem C19_record_seed_C19C_dipole_antiparallel :
+  rotvec_apply (dipole_rotvec_seed_C19C (0, 0, -1)%R) zaxis = zaxis.
+Proof. exact dipole_seed_C19C_record. Qed.
+Print Assumptions C19_record_seed_C19C_dipole_antiparallel.
 
 (* make_Triangle as of /repo 2fa0af8 (integer facets, coordinates x1000; exact on the representable facets, see
    Model/DisplayTriangle.v).  A facet not magnetised along its normal is drawn as exactly its three vertices *)
